@@ -32,7 +32,7 @@ type c03Asm struct {
 
 var c03Opcodes = map[string]byte{"STOP": 0x00, "ADD": 0x01, "GT": 0x11, "ISZERO": 0x15, "AND": 0x16, "SHR": 0x1c, "CALLDATALOAD": 0x35,
 	"CALLDATASIZE": 0x36, "CALLDATACOPY": 0x37, "CODECOPY": 0x39, "POP": 0x50, "JUMP": 0x56, "JUMPI": 0x57, "GAS": 0x5a, "JUMPDEST": 0x5b,
-	"DUP1": 0x80, "DUP2": 0x81, "DUP3": 0x82, "DUP5": 0x84, "DUP6": 0x85, "DUP8": 0x87, "SWAP2": 0x91, "CALL": 0xf1, "RETURN": 0xf3, "REVERT": 0xfd}
+	"LOG1": 0xa1, "DUP1": 0x80, "DUP2": 0x81, "DUP3": 0x82, "DUP5": 0x84, "DUP6": 0x85, "DUP8": 0x87, "SWAP2": 0x91, "CALL": 0xf1, "RETURN": 0xf3, "REVERT": 0xfd}
 
 func (a *c03Asm) op(names ...string) *c03Asm {
 	for _, n := range names {
@@ -77,6 +77,22 @@ func c03ForwarderRuntime() []byte {
 	return a.bytes()
 }
 
+// c03EmitterRuntime: a contract that is NOT the packet contract and emits a log shaped like the packet contract's
+// PacketSent(bytes) event: topic0 = keccak("PacketSent(bytes)"), data = its calldata.
+func c03EmitterRuntime() []byte {
+	a := &c03Asm{labels: map[string]int{}, fixups: map[int]string{}}
+	a.op("CALLDATASIZE").push1(0).push1(0).op("CALLDATACOPY") // mem[0..cds) := calldata
+	a.code = append(a.code, 0x7f)                              // PUSH32 topic
+	a.code = append(a.code, crypto.Keccak256([]byte("PacketSent(bytes)"))...)
+	a.op("CALLDATASIZE").push1(0).op("LOG1", "STOP")
+	return a.bytes()
+}
+
+func c03InitCode(rt []byte) []byte {
+	init := []byte{0x60, byte(len(rt)), 0x60, 12, 0x60, 0, 0x39, 0x60, byte(len(rt)), 0x60, 0, 0xf3}
+	return append(init, rt...)
+}
+
 func c03ForwarderInit() []byte {
 	rt := c03ForwarderRuntime()
 	// PUSH1 len PUSH1 off PUSH1 0 CODECOPY PUSH1 len PUSH1 0 RETURN
@@ -106,12 +122,16 @@ func c03ForwarderCalldata(strict bool, frames []c03Frame) []byte {
 
 // deployForwarder creates the contract with a fresh key at nonce 0 (the same address on every chain).
 func (w *c03World) deployForwarder(i int, key *ethsecp256k1.PrivKey) common.Address {
+	return w.deployRaw(i, key, c03ForwarderInit(), len(c03ForwarderRuntime()))
+}
+
+func (w *c03World) deployRaw(i int, key *ethsecp256k1.PrivKey, initCode []byte, rtLen int) common.Address {
 	c := w.ch[i]
 	from := common.BytesToAddress(key.PubKey().Address().Bytes())
 	sctx := c.GetContext()
 	chainID := c.App.EvmKeeper.ChainID()
 	nonce := c.App.EvmKeeper.GetNonce(sctx, from)
-	tx := evm.NewTx(chainID, nonce, nil, big.NewInt(0), config.DefaultGasCap, big.NewInt(0), big.NewInt(0), big.NewInt(0), c03ForwarderInit(), &ethtypes.AccessList{})
+	tx := evm.NewTx(chainID, nonce, nil, big.NewInt(0), config.DefaultGasCap, big.NewInt(0), big.NewInt(0), big.NewInt(0), initCode, &ethtypes.AccessList{})
 	tx.From = from.Hex()
 	if err := tx.Sign(ethtypes.LatestSignerForChainID(chainID), tests.NewSigner(key)); err != nil {
 		w.t.Fatal(err)
@@ -121,7 +141,7 @@ func (w *c03World) deployForwarder(i int, key *ethsecp256k1.PrivKey) common.Addr
 		w.t.Fatalf("forwarder deployment failed: %v %v", err, rsp)
 	}
 	addr := crypto.CreateAddress(from, nonce)
-	if code := c.App.EvmKeeper.GetCode(sctx, common.BytesToHash(c.App.EvmKeeper.GetAccountWithoutBalance(sctx, addr).CodeHash)); len(code) != len(c03ForwarderRuntime()) {
+	if code := c.App.EvmKeeper.GetCode(sctx, common.BytesToHash(c.App.EvmKeeper.GetAccountWithoutBalance(sctx, addr).CodeHash)); len(code) != rtLen {
 		w.t.Fatalf("forwarder code not installed (%d bytes)", len(code))
 	}
 	return addr
